@@ -3,6 +3,5 @@
 (* written by `vh_cpc methods`); also writes the B1 vectors for the harness.        *)
 EXTENDS CallTree
 
-McMethods == LET s == JsonDeserialize("methods.json") IN {s[i] : i \in DOMAIN s}
 McKinds == {"CALL", "CALLCODE", "DELEGATECALL", "STATICCALL"}
 =============================================================================
